@@ -179,8 +179,14 @@ class DiameterAssociation(object):
 
 
     def recv_message_from_queue(self) -> None:
-        while not self._stop_threads and self.transport:
-            self.transport._recv_data_available.wait(timeout=1)
+        while not self._stop_threads:
+            #: The transport is released by another thread (close): it is
+            #: read once per iteration, never assumed to be still there.
+            transport = self.transport
+            if transport is None:
+                break
+
+            transport._recv_data_available.wait(timeout=1)
 
             self.lock.acquire()
 
@@ -189,7 +195,7 @@ class DiameterAssociation(object):
                 break
 
             data_stream = self._recv_pending_stream + \
-                                        self.transport.take_recv_data_stream()
+                                        transport.take_recv_data_stream()
 
             diameter_conn_logger.debug("Grabbing data stream from "\
                                        "Transport Layer to Diameter Layer.")
